@@ -8,6 +8,7 @@ CONSTANTS
   Filter = TRUE
   ValueEq = TRUE
   SoloTries = 0
+  SplitPC = FALSE
 INIT RInit
 NEXT RNext
 INVARIANTS OneWinnerPerVersion NotFollowed
